@@ -97,6 +97,25 @@ def conf_server(item):
         if sess.got() != b''.join(to_server):
             viol.append(('delivery-mismatch', 'server app received %d bytes, refpeer sent %d'
                          % (len(sess.got()), len(b''.join(to_server)))))
+        # a key re-exchange in mid-session (fresh keys, fresh compression contexts), then both directions again
+        if not viol and not w.server_closed():
+            n_before = w.rp.kex_done
+            w.rp.send_kexinit()
+            w.flush()
+            again = [payload(n, 5) for n in (1, bs, 3 * bs + 1, 300)]
+            for d in again:
+                sess.chan.write(d)
+                w.rp.send_app(w.rp.channel_data(remote, d[::-1]))
+            w.flush()
+            got2 = b''.join(R.Reader(p, 5).string() for t, p in w.rp.inbox if t == R.MSG_CHANNEL_DATA)
+            if w.rp.kex_done != n_before + 1:
+                viol.append(('rekey-incomplete', 'exchanges completed: %d' % w.rp.kex_done))
+            if got2 != got + b''.join(again):
+                viol.append(('payload-mismatch-after-rekey', 'refpeer decoded %d bytes after the re-exchange, server app wrote %d'
+                             % (len(got2) - len(got), len(b''.join(again)))))
+            if sess.got() != b''.join(to_server) + b''.join(d[::-1] for d in again):
+                viol.append(('delivery-mismatch-after-rekey', 'server app received %d bytes after the re-exchange, refpeer sent %d'
+                             % (len(sess.got()) - len(b''.join(to_server)), len(b''.join(again)))))
         if w.server_closed():
             viol.append(('closed', repr(getattr(w.owner, 'lost_exc', None))))
         if w.proto.error:
@@ -160,6 +179,24 @@ def conf_client(item):
         if sess.got() != b''.join(back):
             viol.append(('delivery-mismatch', 'client app received %d bytes, refpeer sent %d'
                          % (len(sess.got()), len(b''.join(back)))))
+        if not viol and w.conn._transport is not None:
+            n_before = w.rp.kex_done
+            w.rp.send_kexinit()
+            w.flush()
+            again = [payload(n, 6) for n in (1, bs, 3 * bs + 1, 300)]
+            for d in again:
+                chan.write(d)
+                w.rp.send_app(w.rp.channel_data(sender, d[::-1]))
+            w.flush()
+            got2 = b''.join(R.Reader(p, 5).string() for t, p in w.rp.inbox if t == R.MSG_CHANNEL_DATA)
+            if w.rp.kex_done != n_before + 1:
+                viol.append(('rekey-incomplete', 'exchanges completed: %d' % w.rp.kex_done))
+            if got2 != got + b''.join(again):
+                viol.append(('payload-mismatch-after-rekey', 'refpeer decoded %d bytes after the re-exchange, client app wrote %d'
+                             % (len(got2) - len(got), len(b''.join(again)))))
+            if sess.got() != b''.join(back) + b''.join(d[::-1] for d in again):
+                viol.append(('delivery-mismatch-after-rekey', 'client app received %d bytes after the re-exchange, refpeer sent %d'
+                             % (len(sess.got()) - len(b''.join(back)), len(b''.join(again)))))
         if w.conn._transport is None:
             viol.append(('closed', repr(getattr(w.owner, 'lost_exc', None))))
         if w.proto.error:
@@ -522,7 +559,8 @@ def main(tier, seed):
     rule = ('(a) one session per (kex|cipher x MAC x compression) in each role against the '
             'independent refpeer codec, channel-data payload lengths 0..4*blocksize+8, 255..257, '
             '32767/32768 in both directions; refpeer verifies MAC/tag under its own derived keys and '
-            'sequence numbers, padding >= 4, block alignment, exact payload sequence; (b) every '
+            'sequence numbers, padding >= 4, block alignment, exact payload sequence, then a key re-exchange '
+            'in mid-session and both directions again; (b) every '
             'single split point of both byte streams of a full real<->real session, uniform chunk '
             'sizes 1..67, pairs of split points around packet headers; observation must equal the '
             'unsegmented run; (c) /usr/bin/ssh against an asyncssh server.  Distinct = distinct '
